@@ -46,7 +46,13 @@ def gen_(rng, i, tier):
             labs = labs + [l for l in C.POOL if l not in labs][:2]
         for _ in range(rng.randint(1, 2)):
             calls.append(c03.gen_call(rng, labs) if kind == "PCSO" else c02.gen_call(rng, labs))
-    return {"kind": kind, "init": base["init"], "edits": edits, "calls": calls, "name": rng.choice(NAMES)}
+    post = []
+    if calls and rng.random() < 0.3:
+        # a product with a one-term polynomial after the constraints: the general product path keeps the ancillas (and their
+        # counter) but not the constraint records -- the round trip has to carry that state too
+        c1 = rng.choice([F(2), F(-1), F(1, 2)])
+        post = [{"e": "imul", "okind": "raw", "terms": [[[], [c1.numerator, c1.denominator]]]}]
+    return {"kind": kind, "init": base["init"], "edits": edits, "calls": calls, "post": post, "name": rng.choice(NAMES)}
 
 
 def ninfo(info):
@@ -73,6 +79,8 @@ def build(case):
         if c["rel"] != "eq":
             kw["log_trick"] = c["log"]
         getattr(M, "add_constraint_%s_zero" % c["rel"])(P, **kw)
+    for e in case.get("post", []):
+        M = c14.apply(M, e)
     M.name = case["name"]
     return M
 
@@ -240,9 +248,9 @@ def literal(case, out):
         calls.append("{| c_rel := %s; c_P := %s; c_lam := %s; c_log := %s; c_bounds := %s |}" % (
             c02.RELC[c["rel"]], tl(c["P"]), C.q(F(*c["lam"])), C.boolc(c["log"]), b))
     name = None if case["name"] is None else C.enc(case["name"])
-    cin = "{| c_kind := %s; c_init := %s; c_edits := [%s]; c_calls := [%s]; c_name := %s |}" % (
+    cin = "{| c_kind := %s; c_init := %s; c_edits := [%s]; c_calls := [%s]; c_post := [%s]; c_name := %s |}" % (
         KIND[case["kind"]], tl(case["init"]), "; ".join(c14.edit_lit(e) for e in case["edits"]), "; ".join(calls),
-        C.optc(name, C.nat))
+        "; ".join(c14.edit_lit(e) for e in case.get("post", [])), C.optc(name, C.nat))
     if "error" in out:
         exp = "OErr %s" % out["error"]
     else:
